@@ -16,3 +16,28 @@ pub fn books(a: &Args) {
     let out = rt.block_on(wp::books_once(&q, &c, a.str("op"), a.u64("dead") == 1));
     println!("out={}", out.replace('=', ":"));
 }
+
+fn flags(a: &Args, k: &str) -> Vec<bool> {
+    a.list_u128(k).iter().map(|x| *x != 0).collect()
+}
+
+/// worker_fates queue=<keys> expired=<0|1,..> curr=<keys> op=<..> mode=<None|Oldest|Newest> limit=<n> dead=0|1
+pub fn fates(a: &Args) {
+    let rt = tokio::runtime::Builder::new_current_thread().enable_time().build().unwrap();
+    let keys: Vec<u64> = a.list_u128("queue").iter().map(|x| *x as u64).collect();
+    let ex = flags(a, "expired");
+    let q: Vec<(u64, bool)> = keys.iter().enumerate().map(|(i, k)| (*k, ex.get(i).copied().unwrap_or(false))).collect();
+    let c: Vec<u64> = a.list_u128("curr").iter().map(|x| *x as u64).collect();
+    let out = rt.block_on(wp::fates_once(&q, &c, a.str("op"), a.str("mode"), a.usize("limit"), a.u64("dead") == 1));
+    println!("out={}", out.replace('=', ":"));
+}
+
+/// factory_step op=<..> mode=<..> limit=<n> queue=<msg ids> expired=<flags> incoming_expired=0|1 draining=0|1 script=<h|r|b...> choose=<flags>
+pub fn factory_step(a: &Args) {
+    use ractor::factory::factoryimpl::verif_probe as fp;
+    let ids: Vec<u64> = a.list_u128("queue").iter().map(|x| *x as u64).collect();
+    let ex = flags(a, "expired");
+    let q: Vec<(u64, bool)> = ids.iter().enumerate().map(|(i, m)| (*m, ex.get(i).copied().unwrap_or(false))).collect();
+    let out = fp::factory_step(a.str("op"), a.str("mode"), a.usize("limit"), &q, a.u64("incoming_expired") == 1, a.u64("draining") == 1, a.str("script"), &flags(a, "choose"));
+    println!("out={}", out.replace('=', ":"));
+}
